@@ -146,8 +146,8 @@ var c09PairAtomsSQL = []string{"'", "\"", "`", "\\", "/", "*", "-", "#", "$", "@
 	"a", "1", "e", "x", "q", "n", "u", "b", "N", "0", "_", "or", "not", "in", "select", "union", "sleep", "int", "user", "like", "1e", "0x", "--", "/*", "*/", "$a$", "q'", "u&'", "x'", "::"}
 var c09PairAtomsHTML = []string{"<", ">", "/", "=", "'", "\"", "`", "!", "-", "?", "%", "[", "]", "&", "#", ";", ":", "x", "a", "0", "X", "\x00", " ", "\n", "\t", "\x80",
 	"<!--", "-->", "<![CDATA[", "]]>", "<%", "%>", "<a", "on", "href", "style", "java", "&#", "&#x", "<!", "</"}
-var c09PairPrefixSQL = []string{"", "'", "\"", "1 ", "/*", "$a$"}
-var c09PairPrefixHTML = []string{"", "<a ", "<a b=", "<!--", "'", "<a href="}
+var c09PairPrefixSQL = []string{"", "'", "\"", "1 ", "/*", "$a$", "q'("}
+var c09PairPrefixHTML = []string{"", "<a ", "<a b=", "<!--", "'", "<a href=", ">' src='", "<a href=\""}
 
 func c09PairCount() (int, int) {
 	return len(c09PairAtomsSQL) * len(c09PairAtomsSQL) * len(c09PairPrefixSQL), len(c09PairAtomsHTML) * len(c09PairAtomsHTML) * len(c09PairPrefixHTML)
@@ -166,6 +166,49 @@ func c09PairFam(i int) c09Fam {
 	p := i / (a * a)
 	r := i % (a * a)
 	return c09Fam{"xss", scaleFam{c09PairPrefixHTML[p], c09PairAtomsHTML[r/a] + c09PairAtomsHTML[r%a], ""}}
+}
+
+// suffix variants: "a construct repeated, then something at the very end" —
+// cost that depends on a byte far ahead (a late terminator, a late non-ASCII
+// byte) only shows with a suffix.
+var c09Suffixes = []string{"\xe9", "'", "\"", ">", "*/", "\n", "$a$", "`"}
+
+func c09SuffixFams(nSuffix int) []c09Fam {
+	var out []c09Fam
+	for _, fm := range c09Catalogue() {
+		if fm.f.suffix != "" {
+			continue
+		}
+		for _, sx := range c09Suffixes[:nSuffix] {
+			out = append(out, c09Fam{fm.det, scaleFam{fm.f.prefix, fm.f.unit, sx}})
+		}
+	}
+	return out
+}
+
+// reduced pair alphabets for the quick tier
+var c09QuickAtomsSQL = []string{"'", "\"", "`", "\\", "/", "*", "-", "#", "$", "@", "[", "(", ")", ".", ",", ";", ":", "=", "&", " ", "\n", "\x00", "\x80", "a", "1", "q", "or", "not", "--", "/*"}
+var c09QuickAtomsHTML = []string{"<", ">", "/", "=", "'", "\"", "`", "!", "-", "?", "%", "]", "&", "#", ";", ":", "a", "0", "\x00", " "}
+var c09QuickPrefixSQL = []string{"", "'", "\"", "1 ", "q'(", "$a$"}
+var c09QuickPrefixHTML = []string{"", "<a ", "<a href=", "<!--", ">' src='", "<a href=\""}
+
+func c09QuickPairs() []c09Fam {
+	var out []c09Fam
+	for _, p := range c09QuickPrefixSQL {
+		for _, a := range c09QuickAtomsSQL {
+			for _, b := range c09QuickAtomsSQL {
+				out = append(out, c09Fam{"sqli", scaleFam{p, a + b, ""}})
+			}
+		}
+	}
+	for _, p := range c09QuickPrefixHTML {
+		for _, a := range c09QuickAtomsHTML {
+			for _, b := range c09QuickAtomsHTML {
+				out = append(out, c09Fam{"xss", scaleFam{p, a + b, ""}})
+			}
+		}
+	}
+	return out
 }
 
 func c09Case(fm c09Fam, n int) core.Case {
@@ -225,12 +268,20 @@ func c09() *core.Check {
 		debug.SetGCPercent(400)
 		n, k := 32<<10, 3
 		fams := c09Catalogue()
-		pairs := 0
+		// families that are only screened at two sizes; suspects get the full
+		// three-point measurement
+		screen := append(c09SuffixFams(5), c09QuickPairs()...)
+		s1, s2 := 4<<10, 32<<10
 		if r.Tier == "thorough" {
 			n, k = 64<<10, 5
+			screen = c09SuffixFams(len(c09Suffixes))
 			a, b := c09PairCount()
-			pairs = a + b
+			for i := 0; i < a+b; i++ {
+				screen = append(screen, c09PairFam(i))
+			}
+			s1, s2 = 8<<10, 64<<10
 		}
+		pairs := len(screen)
 		type res struct {
 			fm c09Fam
 			m  famMeasure
@@ -261,21 +312,21 @@ func c09() *core.Check {
 						fm = fams[i]
 						m = measureFamily(fm.det, fm.f, n, k)
 					} else {
-						// screening of generated pair families at 8 KiB / 64 KiB
-						fm = c09PairFam(i - len(fams))
-						s1 := gen.Scale(fm.f.prefix, fm.f.unit, "", 8<<10)
-						s2 := gen.Scale(fm.f.prefix, fm.f.unit, "", 64<<10)
-						t1, t2 := timeMin(fm.det, s1, 2), timeMin(fm.det, s2, 2)
+						// screening at two sizes
+						fm = screen[i-len(fams)]
+						in1 := gen.Scale(fm.f.prefix, fm.f.unit, fm.f.suffix, s1)
+						in2 := gen.Scale(fm.f.prefix, fm.f.unit, fm.f.suffix, s2)
+						t1, t2 := timeMin(fm.det, in1, 2), timeMin(fm.det, in2, 2)
 						w.Eval(1)
-						w.Count("pair_families_screened", 1)
-						w.Nontrivial("pair|" + fm.det + "|" + fm.f.prefix + "|" + fm.f.unit)
+						w.Count("families_screened_two_point", 1)
+						w.Nontrivial("screen|" + fm.det + "|" + fm.f.prefix + "|" + fm.f.unit + "|" + fm.f.suffix)
 						if t1 < 1 {
 							t1 = 1
 						}
-						if !(float64(t2)/float64(t1) >= 22.6 && t2 >= 2e6) && float64(t2) <= c09CeilNsPerByte*float64(len(s2)) {
+						if !(float64(t2)/float64(t1) >= 22.6 && t2 >= 1e6) && float64(t2) <= c09CeilNsPerByte*float64(len(in2)) {
 							continue
 						}
-						w.Count("pair_families_suspect", 1)
+						w.Count("screened_families_suspect", 1)
 						base = 16 << 10
 						m = measureFamily(fm.det, fm.f, base, 3)
 					}
